@@ -45,6 +45,15 @@ def gen(chk):
         fam, m, edges = G.random_dag(rng, 5, 14 if not thorough else 40)
         labels = G.pick_labels(rng, m)
         graphs.append((fam, G.label(edges, labels)))
+    # dense graphs: more edges than an 8-bit index can count on fewer than 256 nodes (index arrays sized by the node
+    # count must not be used for edge offsets)
+    for m in ([24] if not thorough else [24, 27, 30]):
+        labels = rng.sample(G.POOL_PLAIN[:150], m)
+        order = sorted(labels, key=G.key_of)
+        rng.shuffle(order)
+        es = [[order[i], order[j]] for i in range(m) for j in range(i) if (i - j) <= 14 or rng.random() < 0.8]
+        rng.shuffle(es)
+        graphs.append(('dense', es))
     return graphs, n_exh
 
 
